@@ -654,6 +654,18 @@ type Reply struct {
 	CType    string `json:"ctype,omitempty"`
 }
 
+// serveMulti is serve with one header carrying several values (multiple header lines).
+func serveMulti(p *provider.Provider, r HTTPReq, name string, vals []string) Reply {
+	extra = map[string][]string{}
+	if name != "" {
+		extra[name] = vals
+	}
+	defer func() { extra = nil }()
+	return serve(p.HttpHandler(), r)
+}
+
+var extra map[string][]string
+
 func serve(h http.Handler, r HTTPReq) (rep Reply) {
 	target := r.Path
 	if r.Query != "" {
@@ -670,6 +682,11 @@ func serve(h http.Handler, r HTTPReq) (rep Reply) {
 	}
 	for k, v := range r.Headers {
 		req.Header.Add(k, v)
+	}
+	for k, vs := range extra {
+		for _, v := range vs {
+			req.Header.Add(k, v)
+		}
 	}
 	rec := httptest.NewRecorder()
 	func() {
